@@ -28,7 +28,7 @@ type vfCoreResult struct {
 }
 
 // vfRunCoreScript runs one PRNG script of the core subset.
-func vfRunCoreScript(env *vfEnv, prop string, caseNo int, prof *vfProfile) *vfCoreResult {
+func vfRunCoreScript(env *vfEnv, prop string, caseNo int, prof *vfProfile, value bool) *vfCoreResult {
 	rng := vfCaseRand(env.Seed, prop, caseNo)
 	dir := vfScratchDir(env, "e1")
 	cfg := vfInstCfg{Dir: dir, Manual: true, NDb: prof.NDbs + 1}
@@ -45,6 +45,9 @@ func vfRunCoreScript(env *vfEnv, prop string, caseNo int, prof *vfProfile) *vfCo
 	eng := vfNewEngine(in, rng, 4)
 	sh := vfNewShadow(eng)
 	gen := vfNewGen(rng, prof, sh)
+	if value {
+		vfAttachValueOracle(sh)
+	}
 	eng.injectPct = prof.InjectPct
 	eng.injectUnset = prof.InjectUnsettled
 	if prof.InjectPct > 0 {
@@ -264,7 +267,11 @@ type vfCoreProp struct {
 	Nontrivial func(st map[string]int64) bool
 	Floors    []string
 	Assumptions []string
+	Value     bool // attach the value oracle
 }
+
+// property-specific files register further core-engine properties here
+var vfExtraCoreProps []func(m map[string]*vfCoreProp, base vfProfile)
 
 var vfCoreAssumptions = []string{
 	"virtual clock: LockDB.currentTime and the per-second sweeps are driven by the harness (hook VP_MANUAL_CLOCK); millisecond timers are not covered here",
@@ -340,6 +347,9 @@ func vfCoreProps() map[string]*vfCoreProp {
 	for _, cp := range m {
 		cp.Assumptions = vfCoreAssumptions
 	}
+	for _, f := range vfExtraCoreProps {
+		f(m, base)
+	}
 	return m
 }
 
@@ -349,7 +359,7 @@ func vfRunCoreCheck(t *testing.T, prop string) {
 	cp := vfCoreProps()[prop]
 	n := env.N(cp.Quick, cp.Thorough)
 	runCase := func(part *vfPart, i int) {
-		res := vfRunCoreScript(env, prop, i, &cp.Profile)
+		res := vfRunCoreScript(env, prop, i, &cp.Profile, cp.Value)
 		for k, v := range res.Stats {
 			if strings.HasPrefix(k, "max_") {
 				part.Max(k, v)
